@@ -301,6 +301,11 @@ Theorem c14_checker_sg_sound : forall tol (m : @interp2 QN) sv gv (r : res Q), v
   inr (x2 m) cs /\ inr (y2 m) cg /\
   exists out, r = Ok out /\ Spec.convexnb tol 2 [x2 m; y2 m] (f2 m) [cs; cg] out = true.
 Proof. exact check_sg_sound. Qed.
+(* the grid reported by the implementation is checked against the shape c14_sg_grid_is_underlying proves *)
+Theorem c14_checker_axis_sound : forall tol lo hi bins (xs : list Q), Spec.check_axis tol lo hi bins xs = true ->
+  List.length xs = bins /\ incr xs /\ (1 <= List.length xs)%nat /\ nq xs 0 == lo /\
+  Qabs (lastq xs - hi) <= tol * (1 + Qabs lo + Qabs hi).
+Proof. exact check_axis_sound. Qed.
 (* the checker's clamp is the model's clamp *)
 Theorem c14_checker_clamp : forall lo hi v, lo <= hi -> Spec.qclamp lo hi v == clamp (N:=QN) lo hi v.
 Proof. exact qclamp_clamp. Qed.
@@ -370,17 +375,19 @@ Example c14_ex_cell_index :
   find_nearest_index (N:=QN) [0; 1; 3; 7] (7#2) = Ok 2%nat /\ find_nearest_index (N:=QN) [0; 1; 3; 7] 0 = Ok 0%nat /\
   incr [0; 1; 3; 7].
 Proof. repeat split; vm_compute; reflexivity. Qed.
-(* a speed/grade model over a non-linear predictor: built, queried inside, far outside (clamped, no error) *)
+(* a speed/grade model over a non-linear predictor: built (4 x 3 grid), queried inside (1005), far outside both axes
+   (clamped to (60, -1), no error: 3590) and on a grid point (40^2 + 0 = 1600) *)
 Example c14_ex_sg :
-  let u := fun s g : Q => Ok (s * s + 10 * g) in
-  exists m, sg_new (N:=QN) u 0 60 4 (-1) 1 3 = Ok m /\
-            (exists v, sg_predict (N:=QN) (fun x => x) (fun x => x) m 30 (1#2) = Ok v /\ v == 1005) /\
-            (exists v, sg_predict (N:=QN) (fun x => x) (fun x => x) m 1000 (-50) = Ok v /\ v == 3590) /\
-            (exists v, sg_predict (N:=QN) (fun x => x) (fun x => x) m 40 0 = Ok v /\ v == 1600).
-Proof.
-  cbv zeta. eexists. split; [vm_compute; reflexivity|].
-  repeat split; eexists; (split; [vm_compute; reflexivity|vm_compute; reflexivity]).
-Qed.
+  match sg_new (N:=QN) (fun s g : Q => Ok (s * s + 10 * g)) 0 60 4 (-1) 1 3 with
+  | Ok m =>
+      let p := sg_predict (N:=QN) (fun x => x) (fun x => x) m in
+      match p 30 (1#2), p 1000 (-50), p 40 0 with
+      | Ok a, Ok b, Ok c => Qeq_bool a 1005 && Qeq_bool b 3590 && Qeq_bool c 1600
+      | _, _, _ => false
+      end
+  | _ => false
+  end = true.
+Proof. vm_compute. reflexivity. Qed.
 (* well-formed 3-dimensional data for the N-D theorems *)
 Example c14_ex_nd :
   exists m, nd_new (N:=QN) 3 [[0; 1]; [0; 2]; [1; 2; 4]]
@@ -440,6 +447,7 @@ Print Assumptions c14_checker_convex_sound.
 Print Assumptions c14_checker_on_grid_sound.
 Print Assumptions c14_checker_interpolate_sound.
 Print Assumptions c14_checker_sg_sound.
+Print Assumptions c14_checker_axis_sound.
 Print Assumptions c14_checker_clamp.
 Print Assumptions c14_mlin_exact.
 Print Assumptions c14_checker_mlin_sound.
